@@ -31,6 +31,7 @@ fn main() {
     let journal = arg(&args, "--journal").map(|p| OpenOptions::new().create(true).append(true).open(p).expect("journal"));
 
     mon::install_panic_hook();
+    icyverif::stream::install_accounting_gate();
     // i18n loader reads the locale once; touch it outside of any case
     let _ = icy_engine::Buffer::new((1, 1));
 
@@ -58,10 +59,16 @@ fn main() {
                 k += (shard + nshards - k % nshards) % nshards;
             }
             let mut done = 0u64;
+            ctx.start_marker();
+            let mut last_cp = std::time::Instant::now();
             while k < total && done < limit {
                 prop.run_case(&mut ctx, k);
                 k += nshards;
                 done += 1;
+                if done % 256 == 0 && last_cp.elapsed().as_secs() >= 5 {
+                    ctx.checkpoint();
+                    last_cp = std::time::Instant::now();
+                }
             }
             ctx.finish();
         }
